@@ -380,3 +380,86 @@ def extra_obligations(tier):
 from contracts import graph_utils as _gu
 CONTRACTS.append(_gu.collect_residues('C10', _gu.ATTRS_BONDS))      # as make_bonds calls it
 CONTRACTS.append(_gu.partition_graph('C10'))
+
+
+# ------------------------------------------------------------------ make_bonds: residues are never split between molecules
+MolT = TKey('MolT')
+
+
+def setup_mols(cx):
+    from pyvc.values import IterV
+    from pyvc.builtins import _int
+    ATOMS = cx.val('ATOMS', TSet(Node))                     # the atoms of the united system
+    n_res = cx.val('n_res', TInt)
+    COMPS = cx.val('COMPS', TSeq(TSet(TInt)))               # networkx.connected_components(residue_graph), in its order
+    cx.spec_env.update(ATOMS=ATOMS, n_res=n_res, COMPS=COMPS)
+    ratoms = cx.uf('ratoms', [TInt], TSet(Node))            # residue_graph.nodes[r]['graph']: the atoms of residue r
+    res_of = cx.uf('res_of', [Node], TInt)
+    comp_of = cx.uf('comp_of', [TInt], TInt)
+    redge = cx.uf('redge', [TInt, TInt], TBool)             # an edge of the residue graph: some bond joins atoms of the two residues
+    matoms = cx.uf('matoms', [MolT], TSet(Node))            # the atoms of a molecule that is built
+    r, s, c = z3.Ints('qr qs qc')
+    n = z3.Const('qn', Node.sort())
+    R, st = n_res.e, TSeq(TSet(TInt))
+    cx.assume(R >= 0)
+    # partition_graph by its contract (proved below): one node per residue group, holding exactly its atoms; the groups partition
+    # the atoms (collect_residues' contract)
+    cx.assume(z3.ForAll([n], z3.Implies(z3.Select(ATOMS.e, n), z3.And(0 <= res_of(n), res_of(n) < R, z3.Select(ratoms(res_of(n)), n)))))
+    cx.assume(z3.ForAll([r, n], z3.Implies(z3.And(0 <= r, r < R, z3.Select(ratoms(r), n)), z3.And(z3.Select(ATOMS.e, n), res_of(n) == r)),
+                        patterns=[z3.Select(ratoms(r), n)]))
+    # networkx.connected_components by its contract: the nodes of the residue graph are partitioned into sets that are closed
+    # under its edges
+    cx.assume(z3.ForAll([r], z3.Implies(z3.And(0 <= r, r < R), z3.And(0 <= comp_of(r), comp_of(r) < st.len(COMPS.e),
+                                                                     z3.Select(st.at(COMPS.e, comp_of(r)), r))), patterns=[comp_of(r)]))
+    cx.assume(z3.ForAll([c, r], z3.Implies(z3.And(0 <= c, c < st.len(COMPS.e), z3.Select(st.at(COMPS.e, c), r)),
+                                           z3.And(0 <= r, r < R, comp_of(r) == c)), patterns=[z3.Select(st.at(COMPS.e, c), r)]))
+    cx.assume(z3.ForAll([r, s], z3.Implies(z3.And(0 <= r, r < R, 0 <= s, s < R, redge(r, s)), comp_of(r) == comp_of(s))))
+    groups = Obj('residue_groups', values=Builtin(lambda e: groups_values, 'residue_groups.values'))
+    groups_values = Obj('groups.values')
+    system = Obj('Graph')
+    rg = Obj('residue_graph', nodes=Obj('NodeView', __getitem__=Builtin(
+        lambda e, rr: Obj('resattrs', __getitem__=Builtin(lambda e2, k: SV(TSet(Node), ratoms(to_z3(rr, TInt))) if k == 'graph' else
+                                                          (_ for _ in ()).throw(EngineError('residue[%r]' % (k,))), 'residue[]')), 'residue_graph.nodes[]')))
+    cx.spec_env['partition_graph'] = Builtin(
+        lambda e, g, parts: rg if (g is system and parts is groups_values) else (_ for _ in ()).throw(EngineError('partition_graph of something else')),
+        'partition_graph')
+    cx.spec_env['nx'] = Obj('networkx', connected_components=Builtin(
+        lambda e, g: COMPS if g is rg else (_ for _ in ()).throw(EngineError('connected_components of another graph')), 'networkx.connected_components'))
+
+    def subgraph(e, nodes):
+        o = Obj('subgraph')
+        o.__dict__['nodeset'] = to_z3(nodes, TSet(Node))
+        return o
+    system.attrs['subgraph'] = Builtin(subgraph, 'system.subgraph')
+
+    def molecule(e, g):
+        m = e.fresh_val(MolT, 'mol')
+        e.assume(matoms(m.e) == g.__dict__['nodeset'])
+        return m
+    cx.spec_env['Molecule'] = Builtin(molecule, 'Molecule')
+    return dict(system=system, residue_groups=groups)
+
+
+MOLS_OF = ("forall(lambda c: implies(0 <= c and c < {I}, forall(lambda n: (n in matoms({M}[c])) == (n in ATOMS and comp_of(res_of(n)) == c), Node)))")
+make_bonds_molecules = FunctionContract(
+    F, 'make_bonds', 'C10', short='make_bonds[molecules]', setup=setup_mols, spec_env=dict(Node=Node, MolT=MolT),
+    region=dict(start="molecules = []", end="return molecules"),
+    locals=dict(molecules=TSeq(MolT)),
+    ensures=[
+        # one molecule per connected component of the residue graph, holding exactly the atoms of the residues of that component:
+        "len(molecules) == len(COMPS)", MOLS_OF.format(I='len(COMPS)', M='molecules'),
+        # so no atom is lost and none is in two molecules, a residue is never split, and residues joined by a bond end up together
+        "forall(lambda n: implies(n in ATOMS, 0 <= comp_of(res_of(n)) and comp_of(res_of(n)) < len(molecules) and "
+        "   n in matoms(molecules[comp_of(res_of(n))])), Node)",
+        "forall(lambda n, c, d: implies(0 <= c and c < d and d < len(molecules), not (n in matoms(molecules[c]) and n in matoms(molecules[d]))), Node, TInt, TInt)",
+        "forall(lambda n, m, c: implies(n in ATOMS and m in ATOMS and res_of(n) == res_of(m) and 0 <= c and c < len(molecules), "
+        "   (n in matoms(molecules[c])) == (m in matoms(molecules[c]))), Node, Node, TInt)",
+        "forall(lambda n, m, c: implies(n in ATOMS and m in ATOMS and redge(res_of(n), res_of(m)) and 0 <= c and c < len(molecules), "
+        "   (n in matoms(molecules[c])) == (m in matoms(molecules[c]))), Node, Node, TInt)",
+    ],
+    loops={'L1': LoopSpec(inv=["len(molecules) == _i", MOLS_OF.format(I='_i', M='molecules')], modifies=['molecules'])},
+    canary=[("node_idxs = set().union(*(residue_graph.nodes[rni]['graph'] for rni in res_node_idxs))",
+             "node_idxs = set(residue_graph.nodes[next(iter(res_node_idxs))]['graph'])"),
+            ("molecules.append(mol)", "molecules = [mol]")],
+)
+CONTRACTS.append(make_bonds_molecules)
